@@ -44,6 +44,12 @@ def _worker(task):
         out = getattr(mod, fname)(*args)
         for r in out:
             r.setdefault('task', f"{fname}{args!r}"[:120])
+        if os.environ.get('PYVC_TIMING'):
+            sys.stderr.write(f"TIMING {time.time() - t0:8.1f}s {fname}{args!r}\n"[:200])
+            if time.time() - t0 > 20:
+                for r in sorted(out, key=lambda r: -r.get('secs', 0))[:5]:
+                    sys.stderr.write(f"TIMING      . {r.get('secs', 0):6.1f}s {r['name']} [{r.get('case')}] {r['verdict']} "
+                                     f"{r.get('backend')}\n")
         return out
     except Exception:
         return [{'name': f'{modname}.{fname}', 'case': repr(args)[:200], 'kind': 'engine', 'verdict': 'crash',
@@ -179,9 +185,13 @@ class Check:
             want = 'refuted' if r['kind'] == 'canary-false' else 'proved'
             if r['verdict'] != want:
                 engine_errors.append(f"canary {r['name']} [{r.get('case')}] expected {want}, got {r['verdict']}")
+        cover_unknown = []
         for r in covers:
-            if r['verdict'] != 'sat':
-                engine_errors.append(f"cover {r['name']} [{r.get('case')}] is {r['verdict']} (vacuous contract?)")
+            if r['verdict'] == 'unsat':
+                engine_errors.append(f"cover {r['name']} [{r.get('case')}] is unsat (vacuous contract)")
+            elif r['verdict'] != 'sat':
+                # reachability not decided within the budget (non-linear sat query): reported, not fatal
+                cover_unknown.append(r)
         if not props:
             engine_errors.append("zero property obligations generated")
 
@@ -297,7 +307,7 @@ class Check:
                 lines.append(f"ENGINE-ERROR property={pid} {e}")
             exit_code = 3
 
-        n_obl = len(props) + len(auxs) - sum(len(rs) for _, (f, rs) in seen.items()
+        n_obl = len(props) + len(auxs) - sum(sum(1 for r in rs if r['kind'] != 'bounded') for _, (f, rs) in seen.items()
                                               if not any(k['id'] == f['id'] and k['witness'] == 'stale'
                                                          for k in kf_report))
         wall = time.time() - self.t0
@@ -318,7 +328,8 @@ class Check:
             'aux_obligations': len(auxs),
             'canaries': {'total': len(canaries), 'ok': sum(1 for r in canaries if r['verdict'] == (
                 'refuted' if r['kind'] == 'canary-false' else 'proved'))},
-            'covers': {'total': len(covers), 'sat': sum(1 for r in covers if r['verdict'] == 'sat')},
+            'covers': {'total': len(covers), 'sat': sum(1 for r in covers if r['verdict'] == 'sat'),
+                       'undecided': [f"{r['name']} [{r.get('case')}]" for r in cover_unknown[:20]]},
             'known_findings': kf_report,
             'undecided': [{'name': r['name'], 'case': r.get('case'), 'reason': r['verdict'],
                            'note': (r.get('note') or '')[:300]} for r in undecided[:50]],
